@@ -268,6 +268,32 @@ func run(c *core.Ctx) {
 			check(c, a+"x"+b+"y"+a, styles[0])
 		}
 	}
+	// the url( family: anything that can stand in front of an unquoted url( x payloads in which
+	// quotes do not delimit strings for a CSS tokenizer
+	pres := []string{"", "a", "_", "-", "9", "a\"x\"", "\"x\"", "'y'", "a\"\"", "a''", "[b=\"c\"]", "a ", "a>", "a,", ":not(", "*", "a[b]", "\"\"\"\"", "a\"x\"b\"y\""}
+	urls := []string{"url(", "URL(", "Url(", "uRl(", "url (", "url\\(", "u\\72l(", "\\75rl(", "url(/**/", "-url(", "xurl(", "url-prefix(", "image-set(url("}
+	bodies := []string{"x\"){}input[value^=a]{background:url(//evil/a)}z{\"y)", "y\"){}b{c:d}e{\"w)", "x')", "x)", "x\")", "\"){}*{x:y}a{\")", "x y)", "x\\))", "x'){}a{b:c}d{')"}
+	for _, p0 := range pres {
+		for _, u := range urls {
+			for _, b := range bodies {
+				idx++
+				if c.Mine(idx) {
+					check(c, p0+u+b, styles[0])
+				}
+			}
+		}
+	}
+	c.SetExhaustive("url( family: prefixes x spellings x payloads")
+	for _, n := range gen.BoundaryLens() {
+		idx++
+		if !c.Mine(idx) {
+			continue
+		}
+		for _, sp := range []string{"{", "}", ";", "@x", "<", "\"", "/*", "(", "]"} {
+			check(c, gen.Pad("a", n)+sp, styles[0])
+			check(c, gen.Pad("a b>c ", n)+sp+"x", styles[1])
+		}
+	}
 	c.SetExhaustive("all pairs of selector atoms")
 	r := c.Rng("soup")
 	n := c.N(600000, 10000000) / c.NShards
